@@ -16,10 +16,15 @@ wall_residuals(eos, vp, vm, Tp, Tm)          (r1, r2): energy-flux and momentum-
 newton_correction(eos, vp, vm, Tp, Tm)       one Newton step (dTp, dTm) of the flux equations at FIXED (vp, vm),
                                              analytic Jacobian from dp, ddp; also returns cond(J) -- the
                                              backward-error oracle of C02
-junction_newton(eos, vp, vm, Tp0, Tm0)       damped Newton in (ln Tp, ln Tm) at fixed (vp, vm) -> JunctionResult
-junction_from_Tp(eos, Tp, vw)                deflagration/hybrid junction at given T+: 1-D bracketed solve in T-
-                                             (v+ eliminated with the momentum equation); picks vm = vw or
-                                             vm = c_b(T-) consistently -> (vp, vm, Tm, kind) or None
+junction_backward_error(eos, vp, vm, Tp, Tm, b_vp, b_Tp, b_Tm)
+                                             min over |dvp| <= b_vp of max(|dTp|/b_Tp, |dTm|/b_Tm) such that the
+                                             flux equations hold: the backward error of a returned matching in
+                                             units of the solver's tolerance box (<= 1: an exact solution is inside)
+junction_newton(eos, vp, vm, Tp0, Tm0, hybrid) damped Newton in (ln Tp, ln Tm) at fixed vp and vm = const or
+                                             vm = c_b(Tm) -> JunctionResult
+junction_bracketed(eos, vp, vw, hybrid, Ts)  guess-free nested bracketing solve of the same equations
+junction_at_vp(eos, vp, vw, Ts, guess)       picks deflagration (vm = vw <= c_b(Tm)) or hybrid (vm = c_b(Tm) < vw)
+                                             consistently -> (Tp, Tm, vm, kind)
 integrate_shock(eos, vw, vp, Tp)             the self-similar flow in front of the wall integrated IN XI with DOP853
                                              (rtol 1e-11) from (xi = vw, v = mu(vw, vp), Tp) to the front located by
                                              mu(xi, v) xi = c_s^2(T), crossed with energy-flux conservation
@@ -28,8 +33,10 @@ front_residuals(eos, sh, Tn)                 energy- and momentum-flux mismatch 
                                              is at rest at temperature Tn (dimensionless)
 integrate_rarefaction(eos, vw, vm, Tm)       the rarefaction wave behind hybrids/detonations, integrated in
                                              s = sqrt(vw - xi) (regular at the Jouguet point where d v/d xi diverges)
-match_deflag(eos, Tn, vw)                    reference deflagration/hybrid matching: root in T+ of Tn_out(T+) = Tn
-                                             -> Matching(ok, kind, vp, vm, Tp, Tm, shock, slopes...) / ok=False+reason
+match_deflag(eos, Tn, vw)                    reference deflagration/hybrid matching: root in v+ of Tn'(v+) = Tn
+                                             -> Matching(ok, kind, vp, vm, Tp, Tm, shock, dTn_dvp, dTp_dvp, dTm_dvp,
+                                             cond) / ok=False + reason ('below-vmin', 'above-vJ' = no solution exists;
+                                             anything else = the reference failed)
 detonation(eos, Tn, vw)                      weak detonation root (vp = vw, Tp = Tn) -> Matching
 chapman_jouguet(eos, Tn)                     (vJ, TmJ): the wall speed at which the weak and strong roots merge
 match(eos, Tn, vw, vJ=None)                  dispatch on vw <= vJ
@@ -178,69 +185,130 @@ def newton_correction(eos, vp, vm, Tp, Tm):
     return float(d[0] * Tp), float(d[1] * Tm), cond
 
 
+def junction_backward_error(eos, vp, vm, Tp, Tm, b_vp, b_Tp, b_Tm):
+    """Smallest scaled perturbation of the returned (vp, Tp, Tm) (vm fixed) that makes the two flux
+    equations hold exactly (to first order):  min over |dvp| <= b_vp of max(|dTp|/b_Tp, |dTm|/b_Tm).
+
+    A value <= 1 means: an exact solution of the junction conditions exists inside the tolerance box
+    (b_vp, b_Tp, b_Tm) around the returned numbers.  vp is included because the solver's outer root is
+    in vp with its own tolerance; for weak transitions / slow walls the 2x2 system in (Tp, Tm) alone is
+    ill-conditioned (cond ~ 1/alpha) and a shift of vp within its tolerance moves the exact (Tp, Tm)
+    by much more than their own.  Returns (ratio, t, (dTp, dTm), cond)."""
+    eos = as_eos(eos)
+    F, J, wp = _flux_system(eos, vp, vm, Tp, Tm)
+    Jv = np.array([wp * (1 + vp * vp) / (1 - vp * vp) ** 2, wp * 2 * vp / (1 - vp * vp) ** 2])
+    S = np.array([Tp, Tm])
+    Js = J * S[None, :] / wp
+    try:
+        d0 = np.linalg.solve(Js, -F / wp) * S          # correction at dvp = 0
+        d1 = np.linalg.solve(Js, -Jv * b_vp / wp) * S  # change of the correction per unit t = dvp/b_vp
+        cond = float(np.linalg.cond(Js))
+    except np.linalg.LinAlgError:
+        return float("inf"), 0.0, (float("inf"), float("inf")), float("inf")
+    if not (np.all(np.isfinite(d0)) and np.all(np.isfinite(d1))):
+        return float("inf"), 0.0, (float("inf"), float("inf")), cond
+    b = np.array([b_Tp, b_Tm])
+    a0, a1 = d0 / b, d1 / b   # scaled: f_i(t) = a0_i + a1_i t ;  minimise max_i |f_i(t)| on [-1, 1]
+    cands = [-1.0, 0.0, 1.0]
+    for i in range(2):
+        if a1[i] != 0:
+            cands.append(-a0[i] / a1[i])
+    for sgn in (1.0, -1.0):
+        den = a1[0] - sgn * a1[1]
+        if den != 0:
+            cands.append(-(a0[0] - sgn * a0[1]) / den)
+    best = (float("inf"), 0.0)
+    for t in cands:
+        t = min(max(t, -1.0), 1.0)
+        val = float(np.max(np.abs(a0 + a1 * t)))
+        if val < best[0]:
+            best = (val, t)
+    t = best[1]
+    dT = d0 + d1 * t
+    return best[0], t, (float(dT[0]), float(dT[1])), cond
+
+
 class JunctionResult:
-    __slots__ = ("ok", "Tp", "Tm", "iters", "last_step")
+    __slots__ = ("ok", "Tp", "Tm", "vm", "iters", "last_step")
 
-    def __init__(self, ok, Tp, Tm, iters, last_step):
-        self.ok, self.Tp, self.Tm, self.iters, self.last_step = ok, Tp, Tm, iters, last_step
+    def __init__(self, ok, Tp, Tm, vm, iters, last_step):
+        self.ok, self.Tp, self.Tm, self.vm, self.iters, self.last_step = ok, Tp, Tm, vm, iters, last_step
 
 
-def junction_newton(eos, vp, vm, Tp0, Tm0, tol=1e-13, maxit=60):
-    """Damped Newton in (ln Tp, ln Tm) for the flux equations at fixed (vp, vm)."""
+def junction_newton(eos, vp, vm, Tp0, Tm0, hybrid=False, tol=1e-13, maxit=60):
+    """Damped Newton in (ln Tp, ln Tm) for the two flux equations at fixed vp and fixed vm
+    (hybrid=False) or vm = c_b(Tm) (hybrid=True; the vm-dependence enters the Jacobian through a
+    finite difference of c_b)."""
     eos = as_eos(eos)
     x = np.array([math.log(Tp0), math.log(Tm0)])
 
     def res(x):
         Tp, Tm = math.exp(x[0]), math.exp(x[1])
-        F, J, wp = _flux_system(eos, vp, vm, Tp, Tm)
-        return F / wp, J * np.array([Tp, Tm])[None, :] / wp
+        vmm = math.sqrt(eos.cb2(Tm)) if hybrid else vm
+        F, J, wp = _flux_system(eos, vp, vmm, Tp, Tm)
+        if hybrid:
+            h = 1e-6 * Tm
+            dvm = (math.sqrt(eos.cb2(Tm + h)) - math.sqrt(eos.cb2(Tm - h))) / (2 * h)
+            if dvm != 0.0:
+                wm = eos.wb(Tm)
+                dg = (1 + vmm * vmm) / (1 - vmm * vmm) ** 2        # d(g^2 v)/dv
+                dgv = 2 * vmm / (1 - vmm * vmm) ** 2               # d(g^2 v^2)/dv
+                J[0, 1] -= wm * dg * dvm
+                J[1, 1] -= wm * dgv * dvm
+        return F / wp, J * np.array([Tp, Tm])[None, :] / wp, vmm
 
-    F, J = res(x)
+    try:
+        F, J, vmm = res(x)
+    except (OverflowError, ValueError, ZeroDivisionError):
+        return JunctionResult(False, Tp0, Tm0, vm, 0, float("inf"))
     step = float("inf")
     for it in range(maxit):
         try:
             d = np.linalg.solve(J, -F)
         except np.linalg.LinAlgError:
-            return JunctionResult(False, math.exp(x[0]), math.exp(x[1]), it, step)
+            return JunctionResult(False, math.exp(x[0]), math.exp(x[1]), vmm, it, step)
+        if not np.all(np.isfinite(d)):
+            return JunctionResult(False, math.exp(x[0]), math.exp(x[1]), vmm, it, step)
         lam = 1.0
         n0 = float(np.hypot(*F))
         while True:
             dd = np.clip(lam * d, -1.0, 1.0)
             xn = x + dd
             try:
-                Fn, Jn = res(xn)
-                okn = bool(np.all(np.isfinite(Fn)))
+                Fn, Jn, vmn = res(xn)
+                okn = bool(np.all(np.isfinite(Fn)) and np.all(np.isfinite(Jn)))
             except (OverflowError, ValueError, ZeroDivisionError):
                 okn = False
             if okn and (float(np.hypot(*Fn)) <= n0 * (1 - 1e-4 * lam) or lam < 1e-3 or n0 < 1e-14):
                 break
             lam *= 0.5
             if lam < 1e-8:
-                return JunctionResult(False, math.exp(x[0]), math.exp(x[1]), it, step)
-        x, F, J = xn, Fn, Jn
+                return JunctionResult(False, math.exp(x[0]), math.exp(x[1]), vmm, it, step)
+        x, F, J, vmm = xn, Fn, Jn, vmn
         step = float(np.max(np.abs(dd)))
         if step < tol:
-            return JunctionResult(True, math.exp(x[0]), math.exp(x[1]), it + 1, step)
-    return JunctionResult(step < 1e-10, math.exp(x[0]), math.exp(x[1]), maxit, step)
+            return JunctionResult(True, math.exp(x[0]), math.exp(x[1]), vmm, it + 1, step)
+    return JunctionResult(step < 1e-10, math.exp(x[0]), math.exp(x[1]), vmm, maxit, step)
 
 
 def _root_increasing(f, x0, target, lo_floor, hi_ceil, what):
     """Solve f(x) = target for an increasing f by geometric bracketing from x0."""
+    x0 = min(max(x0, lo_floor), hi_ceil)
     a = b = x0
     fa = fb = f(x0) - target
     n = 0
     while fa > 0:
-        b, fb = a, fa
-        a = a / 1.5
-        if a < lo_floor or n > 200:
+        if a <= lo_floor or n > 200:
             raise RefFailure(f"bracket-low:{what}")
+        b, fb = a, fa
+        a = max(a / 1.5, lo_floor)
         fa = f(a) - target
         n += 1
     while fb < 0:
-        a, fa = b, fb
-        b = b * 1.5
-        if b > hi_ceil or n > 400:
+        if b >= hi_ceil or n > 400:
             raise RefFailure(f"bracket-high:{what}")
+        a, fa = b, fb
+        b = min(b * 1.5, hi_ceil)
         fb = f(b) - target
         n += 1
     if fa == 0:
@@ -250,64 +318,91 @@ def _root_increasing(f, x0, target, lo_floor, hi_ceil, what):
     return brentq(lambda x: f(x) - target, a, b, xtol=1e-300, rtol=4 * np.finfo(float).eps, maxiter=200)
 
 
-def _junction_fixed_kind(eos, Tp, vw, hybrid, Tscale):
-    """Solve the wall junction for (vp, Tm) at given Tp with vm = vw (deflagration) or vm = c_b(Tm)
-    (hybrid).  vp is eliminated with the momentum equation, leaving one equation in Tm that is
-    bracketed between the points vp = 0 and vp = vm."""
-    psp, wsp = eos.ps(Tp), eos.ws(Tp)
+def junction_bracketed(eos, vp, vw, hybrid, Tscale):
+    """Global (guess-free) solve of the wall junction for (Tp, Tm) at given vp and vm = vw
+    (hybrid=False) or vm = c_b(Tm) (hybrid=True).
+
+    Inner: the energy-flux equation  w_b(Tm) g^2(vm) vm = w_s(Tp) g^2(vp) vp  is inverted for
+    Tm(Tp) (the left side increases with Tm).  Outer: the momentum-flux mismatch as a function of Tp
+    is bracketed by expansion around Tscale and solved with brentq.  Returns (Tp, Tm, vm) or raises
+    RefFailure."""
+    eos = as_eos(eos)
+    lo_floor, hi_ceil = max(1e-6 * Tscale, eos.Tfloor), 1e5 * Tscale
+    tm_ceil = 1e12 * Tscale
+    gp = g2(vp) * vp
 
     def vm_of(Tm):
         return math.sqrt(eos.cb2(Tm)) if hybrid else vw
 
-    def mom_b(Tm):  # momentum flux behind the wall if vp were 0:  p_b + w_b g^2 vm^2
+    def Fb(Tm):
         vm = vm_of(Tm)
-        return eos.pb(Tm) + eos.wb(Tm) * g2(vm) * vm * vm
+        return eos.wb(Tm) * g2(vm) * vm
 
-    lo_floor, hi_ceil = max(1e-6 * Tscale, eos.Tfloor), 1e4 * Tscale
-    # vp = vm  <=>  p_b(Tm) = p_s(Tp);   vp = 0  <=>  mom_b(Tm) = p_s(Tp)
-    if psp <= min(eos.pb(lo_floor), mom_b(lo_floor)):
-        return None
-    try:
-        Tm_hi = _root_increasing(eos.pb, Tp, psp, lo_floor, hi_ceil, "pb=ps")
-        Tm_lo = _root_increasing(mom_b, Tm_hi, psp, lo_floor, hi_ceil, "momb=ps")
-    except RefFailure:
-        return None
+    last = [Tscale]
 
-    def resid(Tm):
-        vm = vm_of(Tm)
-        Fb = eos.wb(Tm) * g2(vm) * vm
-        vp = vm + (eos.pb(Tm) - psp) / Fb
-        if not 0.0 <= vp < 1.0:
-            vp = min(max(vp, 0.0), 1.0 - 1e-16)
-        return wsp * g2(vp) * vp - Fb
+    def Tm_of(Tp):
+        Tm = _root_increasing(Fb, last[0], eos.ws(Tp) * gp, lo_floor, tm_ceil, "Tm(Tp)")
+        last[0] = Tm
+        return Tm
 
-    a, b = Tm_lo, Tm_hi
-    ra, rb = resid(a * (1 + 1e-15)), resid(b)
-    if not (ra < 0 <= rb):
-        if rb < 0:
-            return None  # w_s(Tp) < w_b at equal pressure: no deflagration-type junction
-        a = a * (1 + 1e-12)
-        ra = resid(a)
-        if ra >= 0:
-            return None
-    Tm = brentq(resid, a, b, xtol=1e-300, rtol=4 * np.finfo(float).eps, maxiter=300)
-    vm = vm_of(Tm)
-    vp = vm + (eos.pb(Tm) - psp) / (eos.wb(Tm) * g2(vm) * vm)
-    return vp, vm, Tm
+    def R2(Tp):
+        Tm = Tm_of(Tp)
+        Fs = eos.ws(Tp) * gp
+        return (eos.ps(Tp) - eos.pb(Tm) + Fs * (vp - vm_of(Tm))) / eos.ws(Tp)
+
+    # bracket: R2 increases with Tp (for a bag EOS it is c Tp^4 - eps)
+    a = b = Tscale
+    ra = rb = R2(Tscale)
+    n = 0
+    while ra > 0:
+        if a <= lo_floor * 1.0001 or n > 120:
+            raise RefFailure("junction-bracket-low")
+        b, rb = a, ra
+        a = max(a / 1.3, lo_floor * 1.0001)
+        ra = R2(a)
+        n += 1
+    while rb < 0:
+        if b >= hi_ceil / 1.0001 or n > 240:
+            raise RefFailure("junction-bracket-high")
+        a, ra = b, rb
+        b = min(b * 1.3, hi_ceil / 1.0001)
+        rb = R2(b)
+        n += 1
+    Tp = a if ra == 0 else b if rb == 0 else brentq(R2, a, b, xtol=1e-300, rtol=4 * np.finfo(float).eps, maxiter=300)
+    Tm = Tm_of(Tp)
+    return Tp, Tm, vm_of(Tm)
 
 
-def junction_from_Tp(eos, Tp, vw, Tscale=None):
-    """Deflagration (vm = vw <= c_b(Tm)) or hybrid (vm = c_b(Tm) < vw) junction at given T+.
-    Returns (vp, vm, Tm, kind) or None if no such junction exists at this Tp."""
+def junction_at_vp(eos, vp, vw, Tscale, guess=None):
+    """Deflagration (vm = vw <= c_b(Tm)) or hybrid (vm = c_b(Tm) < vw) junction at given v+.
+    `guess` = (Tp, Tm, kind) from a neighbouring vp (continuation: Newton first, bracketing as
+    fallback).  Returns (Tp, Tm, vm, kind); raises RefFailure if neither kind is consistent."""
     eos = as_eos(eos)
-    Tscale = Tscale or Tp
-    out = _junction_fixed_kind(eos, Tp, vw, False, Tscale)
-    if out is not None and vw * vw <= eos.cb2(out[2]):
-        return out + ("deflagration",)
-    outh = _junction_fixed_kind(eos, Tp, vw, True, Tscale)
-    if outh is not None and outh[1] <= vw * (1 + 1e-12):
-        return outh + ("hybrid",)
-    return None
+
+    def solve(hybrid):
+        if guess is not None:
+            jn = junction_newton(eos, vp, vw, guess[0], guess[1], hybrid=hybrid)
+            if jn.ok and abs(math.log(jn.Tp / guess[0])) < 0.5 and abs(math.log(jn.Tm / guess[1])) < 0.5:
+                return jn.Tp, jn.Tm, jn.vm
+        Tp, Tm, vm = junction_bracketed(eos, vp, vw, hybrid, Tscale)
+        jn = junction_newton(eos, vp, vw, Tp, Tm, hybrid=hybrid)  # polish (full precision)
+        if jn.ok and abs(jn.Tp / Tp - 1) < 1e-6 and abs(jn.Tm / Tm - 1) < 1e-6:
+            return jn.Tp, jn.Tm, jn.vm
+        return Tp, Tm, vm
+
+    order = (False, True) if guess is None or guess[2] == "deflagration" else (True, False)
+    err = None
+    for hybrid in order:
+        try:
+            Tp, Tm, vm = solve(hybrid)
+        except RefFailure as exc:
+            err = exc
+            continue
+        if not hybrid and vw * vw <= eos.cb2(Tm):
+            return Tp, Tm, vw, "deflagration"
+        if hybrid and vm <= vw * (1 + 1e-14):
+            return Tp, Tm, vm, "hybrid"
+    raise RefFailure(f"junction:{err}" if err else "junction:no-consistent-kind")
 
 
 # ---------------------------------------------------------------------------------------------
@@ -366,7 +461,7 @@ def integrate_shock(eos, vw, vp, Tp, rtol=RTOL_ODE, want_kappa=True):
         sh.xi_sh, sh.v_sh, sh.T_sh, sh.Tn_out, sh.mom_res = math.sqrt(eos.cs2(Tp)), 0.0, Tp, Tp, 0.0
         return sh
     front0 = vp * vw - eos.cs2(Tp)  # mu(vw, v0) = vp
-    if front0 >= 0.0:  # the front sits at the wall: zero-length shock wave
+    if front0 >= -1e-11:  # the front sits at the wall (to rounding): zero-length shock wave
         sh.kind = "front-at-wall"
         sh.xi_sh, sh.v_sh, sh.T_sh = vw, v0, Tp
         try:
@@ -558,154 +653,217 @@ def integrate_rarefaction(eos, vw, vm, Tm, rtol=RTOL_ODE, v_stop=1e-7):
 # matching
 # ---------------------------------------------------------------------------------------------
 class Matching:
-    __slots__ = ("ok", "reason", "kind", "vp", "vm", "Tp", "Tm", "shock", "dTn_dTp", "dvp_dTp",
-                 "dTm_dTp", "newton", "evals")
+    """Result of the reference matcher.  Slopes d(.)/dvp are along the one-parameter family of exact
+    wall junctions (parameter v+), measured by finite differences; Tn' is the temperature ahead of
+    the front."""
+
+    __slots__ = ("ok", "reason", "kind", "vp", "vm", "Tp", "Tm", "shock", "dTn_dvp", "dTp_dvp",
+                 "dTm_dvp", "cond", "evals")
 
     def __init__(self):
         self.ok, self.reason, self.kind = False, None, None
         self.vp = self.vm = self.Tp = self.Tm = self.shock = None
-        self.dTn_dTp = self.dvp_dTp = self.dTm_dTp = None
-        self.newton, self.evals = None, 0
+        self.dTn_dvp = self.dTp_dvp = self.dTm_dvp = self.cond = None
+        self.evals = 0
 
     def tuple(self):
         return self.vp, self.vm, self.Tp, self.Tm
 
 
+NO_SOLUTION_REASONS = ("below-vmin", "above-vJ", "below-vJ")
+
+
 def match_deflag(eos, Tn, vw, want_kappa=False):
     """Reference deflagration/hybrid matching for (EOS, Tn, vw).
 
-    Outer unknown T+ > Tn; for each T+ the wall junction gives (vp, vm, Tm), the flow is integrated
-    to the front and crossed; the root of Tn_out(T+) - Tn is bracketed by expansion and solved with
-    brentq.  ok=False with a reason if no such solution exists (vw below v_min / above v_J) or the
-    reference failed."""
+    Outer unknown v+ in (0, min(vw, c_s^2/vw)); for each v+ the wall junction gives (Tp, Tm, vm)
+    (own Newton iteration with continuation, guess-free bracketing as fallback), the flow is
+    integrated in xi to the front and crossed; the root of Tn'(v+) - Tn is found with brentq.
+    ok=False with reason 'below-vmin' / 'above-vJ' if no such solution exists, any other reason if
+    the reference itself failed."""
     eos = as_eos(eos)
     m = Matching()
     cache = {}
+    state = {"guess": None}
 
-    def shoot(Tp):
-        if Tp in cache:
-            return cache[Tp]
+    def shoot(vp):
+        if vp in cache:
+            return cache[vp]
         m.evals += 1
-        j = junction_from_Tp(eos, Tp, vw, Tn)
-        if j is None:
-            cache[Tp] = None
-            return None
-        vp, vm, Tm, kind = j
+        Tp, Tm, vm, kind = junction_at_vp(eos, vp, vw, Tn, state["guess"])
+        state["guess"] = (Tp, Tm, kind)
         sh = integrate_shock(eos, vw, vp, Tp, want_kappa=False)
         if not sh.ok:
-            raise RefFailure(f"shock:{sh.reason}")
-        cache[Tp] = (sh.Tn_out - Tn, vp, vm, Tm, kind, sh)
-        return cache[Tp]
+            if sh.reason and sh.reason.startswith("bracket-low:front"):
+                val = -Tn  # plasma ahead of this trial shock colder than the EOS floor: vp far too small
+            else:
+                raise RefFailure(f"shock:{sh.reason}")
+        else:
+            val = sh.Tn_out - Tn
+        cache[vp] = (val, Tp, Tm, vm, kind, sh)
+        return cache[vp]
+
+    def try_shoot(vp):
+        try:
+            return shoot(vp)
+        except RefFailure as exc:
+            if str(exc).startswith("junction"):
+                return None
+            raise
 
     try:
-        # lower end: Tn itself, or (strong transitions) the smallest T+ that admits a junction (vp -> 0)
-        lo = Tn
-        rlo = shoot(lo)
-        if rlo is None:
-            good = None
-            t = Tn
-            for _ in range(80):
-                t *= 1.1
-                if shoot(t) is not None:
-                    good = t
-                    break
-            if good is None:
-                m.reason = "no-junction"
-                return m
-            bad = good / 1.1
+        # ---- upper end of the family.  vp -> vw means T+ -> infinity (no shock) for bag-like EOS; for
+        # mu > nu the family ends earlier (alpha+ is bounded below), which shows up as a junction failure.
+        top_fail = None
+        P = None
+        for gap in (1e-9, 1e-7, 1e-5, 1e-4, 1e-3, 3e-3, 1e-2, 3e-2, 0.1, 0.2, 0.35, 0.5, 0.65, 0.8, 0.9, 0.97):
+            t = vw * (1.0 - gap)
+            state["guess"] = None
+            r = try_shoot(t)
+            if r is not None:
+                P = (t, r)
+                break
+            top_fail = t
+        if P is None:
+            m.reason = "no-junction"
+            return m
+        hi, rhi = P
+        if rhi[5].kind == "front-at-wall":
+            # find the largest vp with the front still ahead of the wall
+            a, b = None, hi
+            t = hi
             for _ in range(60):
-                mid = 0.5 * (bad + good)
-                if shoot(mid) is None:
-                    bad = mid
-                else:
-                    good = mid
-                if good - bad < 1e-13 * good:
-                    break
-            lo, rlo = good, shoot(good)
-        if rlo[0] > 0:
-            m.reason = "below-vmin"  # even the strongest shock leaves the plasma ahead hotter than Tn
-            return m
-        if rlo[0] == 0:
-            hi, rhi = lo, rlo
-        else:
-            # upper end: expand until Tn_out > Tn or the front reaches the wall
-            step = 1e-3
-            hi, rhi = lo, rlo
-            for _ in range(200):
-                cand = lo * (1.0 + step)
-                r = shoot(cand)
+                t *= 0.97
+                r = try_shoot(t)
                 if r is None:
-                    # junction disappeared above (vp -> vm side); shrink the step
-                    step *= 0.5
-                    if step < 1e-14:
-                        m.reason = "no-upper-junction"
-                        return m
+                    b = t
                     continue
-                if r[5].kind == "front-at-wall" and r[0] < 0:
-                    # beyond the Jouguet point along this family: look for a sign change before it
-                    a, b = hi, cand
-                    for _ in range(60):
-                        mid = 0.5 * (a + b)
-                        rm = shoot(mid)
-                        if rm is None or (rm[5].kind == "front-at-wall" and rm[0] < 0):
-                            b = mid
-                        else:
-                            a = mid
-                            if rm[0] > 0:
-                                break
-                        if b - a < 1e-14 * b:
-                            break
-                    ra_ = shoot(a)
-                    if ra_ is not None and ra_[0] > 0:
-                        hi, rhi = a, ra_
-                        break
-                    m.reason = "above-vJ"
-                    return m
-                hi, rhi = cand, r
-                if r[0] > 0:
+                if r[5].kind != "front-at-wall":
+                    a = t
                     break
-                lo, rlo = cand, r
-                step *= 2.0
-            else:
-                m.reason = "no-upper-bracket"
+                b = t
+            if a is None:
+                m.reason = "above-vJ"
                 return m
-            if rhi[0] <= 0 and rhi is not rlo:
-                m.reason = "no-upper-bracket"
+            for _ in range(80):
+                mid = 0.5 * (a + b)
+                rm = try_shoot(mid)
+                if rm is None or rm[5].kind == "front-at-wall":
+                    b = mid
+                else:
+                    a = mid
+                if b - a < 1e-15 * b:
+                    break
+            hi, rhi = a, shoot(a)
+            top_fail = None
+        lo = rlo = None
+        if rhi[0] < 0:
+            if top_fail is None:
+                m.reason = "above-vJ"  # even with the front at the wall the plasma ahead is colder than Tn
                 return m
-        if lo == hi:
-            Tp = lo
+            # the family ends between hi and top_fail with T+ -> infinity: look for Tn' > Tn in between
+            a, b = hi, top_fail
+            found = None
+            for _ in range(60):
+                mid = 0.5 * (a + b)
+                rm = try_shoot(mid)
+                if rm is None:
+                    b = mid
+                elif rm[0] > 0:
+                    found = (mid, rm)
+                    break
+                else:
+                    a = mid
+                if b - a < 1e-15 * b:
+                    break
+            if found is None:
+                m.reason = "upper-bracket"
+                return m
+            lo, rlo = a, shoot(a)
+            hi, rhi = found
         else:
-            Tp = brentq(lambda t: shoot(t)[0], lo, hi, xtol=1e-300, rtol=1e-14, maxiter=200)
-        r = shoot(Tp)
-        if r is None:
-            m.reason = "junction-lost-at-root"
-            return m
+            # ---- lower end: walk down from hi with a geometrically growing distance to hi (weak
+            # transitions have their root at vp = vw (1 - O(alpha))), down to vp -> 0 (strongest shock)
+            top = hi
+            gap = max(vw - hi, 1e-9 * vw)
+            floor_hit = None
+            for _ in range(200):
+                gap *= 3.0
+                t = top - gap
+                if t <= 1e-9 * vw:
+                    t = 1e-9 * vw
+                r = try_shoot(t)
+                if r is None:
+                    floor_hit = t
+                    break
+                if r[0] <= 0:
+                    lo, rlo = t, r
+                    break
+                hi, rhi = t, r
+                if t <= 1e-9 * vw:
+                    break
+            if lo is None and floor_hit is not None:
+                # T- fell below the EOS validity floor: approach the floor from above
+                a, b = hi, floor_hit
+                for _ in range(40):
+                    mid = 0.5 * (a + b)
+                    state["guess"] = (rhi[1], rhi[2], rhi[4])
+                    rm = try_shoot(mid)
+                    if rm is None:
+                        b = mid
+                    elif rm[0] <= 0:
+                        lo, rlo = mid, rm
+                        break
+                    else:
+                        a, hi, rhi = mid, mid, rm
+                if lo is None:
+                    m.reason = "eos-floor"  # the solution (if any) has T- below the EOS validity floor
+                    return m
+            if lo is None:
+                m.reason = "below-vmin"
+                return m
+        state["guess"] = (rhi[1], rhi[2], rhi[4])
+        vp = lo if rlo[0] == 0 else brentq(lambda x: shoot(x)[0], lo, hi, xtol=1e-300, rtol=1e-14, maxiter=200)
+        r = shoot(vp)
     except RefFailure as exc:
         m.reason = str(exc)
         return m
-    _, vp, vm, Tm, kind, sh = r
-    m.kind, m.vp, m.vm, m.Tp, m.Tm = kind, vp, vm, Tp, Tm
-    m.shock = integrate_shock(eos, vw, vp, Tp, want_kappa=True) if want_kappa else sh
-    # polish / certify with the 2x2 Newton on the flux equations at the found velocities
-    jn = junction_newton(eos, vp, vm, Tp, Tm)
-    m.newton = jn
-    if not jn.ok or abs(jn.Tp / Tp - 1) > 1e-9 or abs(jn.Tm / Tm - 1) > 1e-9:
-        m.reason = "newton-disagrees"
+    val, Tp, Tm, vm, kind, sh = r
+    if sh.kind == "front-at-wall":
+        m.reason = "above-vJ"
         return m
-    if abs(r[0]) > 1e-9 * Tn:
+    if abs(val) > 1e-9 * Tn:
         m.reason = "root-not-converged"
         return m
-    # slopes along the family of exact junctions (for forward images of tolerances)
-    try:
-        h = 1e-6
-        a, b = shoot(Tp * (1 - h)), shoot(Tp * (1 + h))
-        if a is not None and b is not None and a[4] == b[4]:
-            d = 2 * h * Tp
-            m.dTn_dTp = (b[0] - a[0]) / d
-            m.dvp_dTp = (b[1] - a[1]) / d
-            m.dTm_dTp = (b[3] - a[3]) / d
-    except RefFailure:
-        pass
+    # certify the junction with the guess-free solver and the Newton correction
+    m.cond = newton_correction(eos, vp, vm, Tp, Tm)[2]
+    r1, r2 = wall_residuals(eos, vp, vm, Tp, Tm)
+    if max(abs(r1), abs(r2)) > 1e-10:
+        m.reason = "junction-residual"
+        return m
+    m.kind, m.vp, m.vm, m.Tp, m.Tm = kind, vp, vm, Tp, Tm
+    m.shock = integrate_shock(eos, vw, vp, Tp, want_kappa=True) if want_kappa else sh
+    # slopes along the family of exact junctions
+    for h in (1e-6, 1e-5, 1e-7):
+        try:
+            state["guess"] = (Tp, Tm, kind)
+            a = shoot(vp * (1 - h))
+            state["guess"] = (Tp, Tm, kind)
+            b = shoot(min(vp * (1 + h), vw * (1 - 1e-12)))
+        except RefFailure:
+            continue
+        if a[4] != b[4] or a[5].kind != b[5].kind:
+            # kink (deflagration/hybrid switch, front reaching the wall): one-sided on the side of the solution
+            side = a if a[4] == kind and a[5].kind == sh.kind else b if b[4] == kind and b[5].kind == sh.kind else None
+            if side is None:
+                continue
+            other_vp = vp * (1 - h) if side is a else min(vp * (1 + h), vw * (1 - 1e-12))
+            d = other_vp - vp
+            m.dTn_dvp, m.dTp_dvp, m.dTm_dvp = (side[0] - val) / d, (side[1] - Tp) / d, (side[2] - Tm) / d
+        else:
+            d = min(vp * (1 + h), vw * (1 - 1e-12)) - vp * (1 - h)
+            m.dTn_dvp, m.dTp_dvp, m.dTm_dvp = (b[0] - a[0]) / d, (b[1] - a[1]) / d, (b[2] - a[2]) / d
+        break
     m.ok = True
     return m
 
